@@ -500,6 +500,25 @@ def f_servers_security(d):
     d["security"] = [{"bearer": []}]
 
 
+def f_promoted_collision(d):
+    """Declared schemas whose names equal the names the parser derives for inline property schemas of a later schema
+    (`Keeper` + `status` -> `KeeperStatus`): exercises the name-conflict fallbacks of _parse_properties."""
+    S(d)["KeeperStatus"] = obj({"code": {"type": "integer"}})
+    S(d)["KeeperMode"] = {"type": "string", "enum": ["a", "b"]}
+    S(d)["KeeperTags"] = obj({"t": {"type": "string"}})
+    S(d)["KeeperAddress"] = obj({"zip": {"type": "string"}})
+    S(d)["Keeper"] = obj(
+        {
+            "status": {"type": "array", "items": obj({"since": {"type": "string"}, "level": {"type": "integer"}})},
+            "mode": {"type": "string"},
+            "tags": {"type": "array", "items": {"type": "string"}},
+            "address": obj({"street": {"type": "string"}}),
+            "history": {"type": "array", "items": {"type": "array", "items": obj({"at": {"type": "string"}})}},
+        }
+    )
+    use(d, "keeper", "Keeper")
+
+
 def f_zz_no_operations(d):
     """A document without any operation (valid OpenAPI: `paths: {}`); sorts last, so it also empties other features' paths."""
     d["paths"] = {}
